@@ -918,6 +918,18 @@ class XEval(AutoEvaluator):
         if len(node.generators) != 1 or node.generators[0].is_async:
             return Unknown("nested comprehension")
         g = node.generators[0]
+        lit = untuple(self.ev(g.iter)) if isinstance(g.iter, (ast.Tuple, ast.List)) or (isinstance(g.iter, ast.Name) and isinstance(self.env.get(g.iter.id), tuple)) else None
+        if isinstance(lit, tuple) and len(lit) <= 12 and not g.ifs:
+            # a comprehension over a literal sequence is the tuple of its elements
+            saved = dict(self.env)
+            out = []
+            try:
+                for item in lit:
+                    self._bind_target(g.target, item)
+                    out.append(self.ev(node.elt))
+            finally:
+                self.env = saved
+            return tuple(out)
         saved = dict(self.env)
         try:
             name, dom, itv = self._iter_bind(g.target, g.iter)
@@ -1704,8 +1716,38 @@ class XSem:
         return self.ev.env.get(name)
 
     def cells(self, root=None):
-        """[(root, index, value, node, extra)]"""
-        return [(c[0], c[1], c[2], c[3], x) for c, x in zip(self.tr.cells, self.tr.cellx) if root is None or c[0] == root]
+        """[(root, index, value, node, extra)]; a store of a freshly allocated array that was filled element by element (`X[j] = row` with
+        `row = np.zeros(n); row[k] = ...`, typically returned by a helper) also appears as the stores X[j, k] = ... it amounts to"""
+        out = []
+        for c, x in zip(self.tr.cells, self.tr.cellx):
+            for cc in [(c[0], c[1], c[2], c[3], x)] + self._through(c, x, 2):
+                if root is None or cc[0] == root:
+                    out.append(cc)
+        return out
+
+    def _through(self, c, x, depth):
+        b = sym_of(c[2])
+        if not depth or b is None or b == c[0] or b not in self.tr.allocs or is_unknown(c[1]):
+            return []
+        inner = [(d, y) for d, y in zip(self.tr.cells, self.tr.cellx) if d[0] == b]
+        if not inner or any(y["seq"] > x["seq"] for _, y in inner):
+            return []
+        t = app(c[1], "tuple")
+        pre = list(t[1]) if t is not None else [c[1]]
+        if any(isinstance(p, str) or app(p, "slice") is not None or apps(p, "call:") or apps(p, "cmp:") or apps(p, "hcat") or apps(p, "mask:") or apps(p, "invert")
+               or apps(p, "comp") for p in pre):
+            return []          # only X[j] = row with integer / loop indices j: a mask or a slice does not compose with the row's own indices
+        out = []
+        for d, y in inner:
+            if is_unknown(d[1]):
+                return []
+            t2 = app(d[1], "tuple")
+            ix = norm_index(F.fn("tuple", *(pre + (list(t2[1]) if t2 is not None else [d[1]]))))
+            guard = tuple(x["guard"]) + tuple(g for g in y["guard"] if not any(g[1] == h[1] and same(g[0], h[0]) for h in x["guard"]))
+            extra = dict(guard=guard, loops=y["loops"], seq=x["seq"], aug=y["aug"])
+            out.append((c[0], ix, d[2], d[3], extra))
+            out += [(c[0],) + tuple(e[1:]) for e in self._through((c[0], ix, d[2], d[3]), extra, depth - 1)]
+        return out
 
     def calls(self, *names):
         return [c + (x,) for c, x in zip(self.tr.calls, self.tr.callx) if c[0] in names]
@@ -1979,6 +2021,11 @@ class Degrees:
             return fp
         if name in self.LINEAR and self.LINEAR[name] is not None:
             return self.of(args[self.LINEAR[name]]) if args and args[self.LINEAR[name]] is not None else None
+        if name.startswith("call:") and name[5:].isidentifier():
+            # a local callable built from a closure (functools.partial of a lambda, ...) may read scaled arrays that are not among its arguments
+            cv = self.S.ev.env.get(name[5:])
+            if cv is not None and not is_unknown(cv) and any((sym_of(x) or "").startswith("<lambda:") for x in walk(cv)):
+                return None
         # anything else: invariant when none of its arguments scales
         ds = [self.of(x) for x in args if x is not None]
         if all(x is not None and (x is ANY or x == 0) for x in ds):
